@@ -24,7 +24,7 @@ PKPREFIX = b"<PK>"  # placeholder: replaced by the signer's 48 public-key bytes
 
 
 def messages():
-    return [b"", b"\x00", bytes(range(64)), b"abc", PKPREFIX + b"abc"]
+    return [b"", b"\x00", bytes(range(64)), b"abc", PKPREFIX + b"abc", b"\x5a" * 70001]
 
 
 def _resolve_msg(msg, sk):
@@ -186,6 +186,8 @@ def run(ctx):
             for j, m in enumerate(mm):
                 combos.append(("sig", suite, sk, m, ("byte" if i == j else "none") if q else "all"))
         combos.append(("sig", suite, kk[-1], ms[4], "none"))
+        if suite != "pop" or not q:
+            combos.append(("sig", suite, kk[0], ms[5], "none"))
     combos.append(("pop", "pop", ks[2], b"", "byte" if q else "all"))
     if not q:
         combos += [("pop", "pop", ks[0], b"", "all"), ("pop", "pop", ks[1], b"", "all")]
